@@ -65,6 +65,17 @@ fn map_init_err_run_to_completion() {
     core::mem::forget(wk);
 }
 
+/// Clone: a clone is the same combinator over the same parts — `map_init_err_new_service` holds of it verbatim   [C11]
+#[kani::proof]
+fn map_init_err_new_service_on_clone() {
+    let orig = MapInitErr::<_, _, u8, u16>::new(LeafFactory { id: 0 }, mapper);
+    let fac = orig.clone();          // everything below is asked of the CLONE
+    let cfg: u8 = kani::any();
+    let f = fac.new_service(cfg);
+    assert!(new_calls(0) == 1 && new_cfg(0) == cfg && fact_polls(0) == 0 && m_calls() == 0);
+    assert!(f.fut.id == 0 && !f.fut.done);
+}
+
 #[kani::proof]
 fn reach() {
     let mut f = MapInitErrFuture::<LeafFactory, _, u8, u16>::new(OFactFut { id: 0, done: false }, mapper);
